@@ -12,6 +12,7 @@ import (
 	"strings"
 	"sync"
 	"sync/atomic"
+	"syscall"
 	"testing"
 	"time"
 
@@ -390,6 +391,106 @@ func TestVerifC05(t *testing.T) {
 	}
 	for k := 0; k < verifkit.Pick(1, 4); k++ {
 		c05Background(rep, k)
+	}
+	c05HungQueryLog(rep)
+}
+
+// c05HungQueryLog puts a FIFO without a reader at the path of the query-log
+// file, so that the background flush of the memory buffer hangs in open(2)
+// like on a dead network mount.  The flush worker may hang; DNS requests and
+// the admin API must go on being served.
+func c05HungQueryLog(rep *verifkit.Report) {
+	rng := rep.Rand("hung-querylog")
+	up, err := sysStartUpstream(rng.Int63())
+	if err != nil {
+		rep.Inconcl("mock upstream: " + err.Error())
+
+		return
+	}
+	defer up.Stop()
+	dir, err := os.MkdirTemp(os.Getenv("VERIF_SCRATCH"), "agh-hung-")
+	if err != nil {
+		rep.Inconcl(err.Error())
+
+		return
+	}
+	defer os.RemoveAll(dir)
+	_ = os.MkdirAll(filepath.Join(dir, "data"), 0o755)
+	fifo := filepath.Join(dir, "data", "querylog.json")
+	if err = syscall.Mkfifo(fifo, 0o644); err != nil {
+		rep.Event("hung_querylog_phase_skipped_no_mkfifo")
+
+		return
+	}
+	opts := sysConfOpts{UpstreamPort: up.Port, ExtraTop: c05DHCPConf, QLogMemSize: 50}
+	in := &sysInst{Dir: dir, WebPort: verifkit.FreePort(), done: make(chan struct{})}
+	in.DNSPort = verifkit.FreePort()
+	if err = sysWriteConfig(dir, in.WebPort, in.DNSPort, opts); err != nil {
+		rep.Inconcl(err.Error())
+
+		return
+	}
+	if err = in.launch(os.Getenv("VERIF_AGH_BIN"), opts); err != nil {
+		rep.Inconcl("hung-querylog phase start: " + err.Error())
+
+		return
+	}
+	// Enough queries for several flushes of the 50-entry buffer.
+	served, failedInARow := 0, 0
+	for n := 0; n < 400 && failedInARow < 8; n++ {
+		if resp, qerr := sysQuery(in, "127.0.0.1", n%4 == 0, fmt.Sprintf("hung%d.verif.test", n), dns.TypeA, 2*time.Second); qerr == nil && resp != nil {
+			served++
+			failedInARow = 0
+		} else {
+			failedInARow++
+		}
+	}
+	rep.EventN("hung_querylog_phase_queries_served", served)
+	rep.Eval(true, "hung-querylog")
+	rep.Class("flush_of_query_log_hangs_in_open")
+	okProbes := 0
+	for p := 0; p < 20 && (failedInARow < 8 || p < 3); p++ {
+		if resp, qerr := sysQuery(in, "127.0.0.1", p%2 == 0, fmt.Sprintf("hungprobe%d.verif.test", p), dns.TypeA, 5*time.Second); qerr == nil && resp != nil {
+			okProbes++
+		}
+	}
+	okGets := 0
+	for _, p := range []string{"/control/status", "/control/filtering/status", "/control/stats"} {
+		if st, _, e := in.API("GET", p, nil); e == nil && st == 200 {
+			okGets++
+		}
+	}
+	if served < 380 || okProbes < 20 || okGets < 3 {
+		dump := in.Dump()
+		summary, lockers := sysSummarizeDump(dump)
+		defer in.Kill()
+		rep.Violate("stall:query-log-file-hangs", fmt.Sprintf("while the flush of the query log hangs on its file only %d/400 queries, %d/20 DNS probes and %d/3 admin GETs were served", served, okProbes, okGets),
+			map[string]any{"goroutines_by_state_and_product_frames": summary, "stacks_blocked_on_mutexes": lockers})
+
+		return
+	}
+	// Give the hung writers a reader, so that the shutdown can finish.
+	if f, oerr := os.OpenFile(fifo, os.O_RDONLY|syscall.O_NONBLOCK, 0); oerr == nil {
+		go func() {
+			buf := make([]byte, 65536)
+			for {
+				if _, rerr := f.Read(buf); rerr != nil {
+					time.Sleep(5 * time.Millisecond)
+				}
+				if in.Exited() {
+					_ = f.Close()
+
+					return
+				}
+			}
+		}()
+	}
+	if !in.Stop(20 * time.Second) {
+		rep.Event("hung_querylog_phase_shutdown_needed_kill")
+	}
+	log := in.Log()
+	if loc := c05PanicRe.FindStringIndex(log); loc != nil {
+		rep.Violate("server-crash:hung-querylog", "the server process panicked or died with a fatal error", map[string]any{"log": log[loc[0]:min(loc[0]+6000, len(log))]})
 	}
 }
 
